@@ -226,6 +226,7 @@ type chainItem struct {
 	sup  *SX // supported payload (nil for an unsupported one)
 	ty   int
 	crit bool
+	res  byte // the seven RESERVED bits of the flags octet (ignored on receipt, RFC 7296 3.2)
 	body []byte
 }
 
@@ -248,9 +249,9 @@ func buildChain(items []chainItem, lastNext byte) (first byte, wire []byte, ok b
 		if i+1 < len(items) {
 			nx = byte(items[i+1].ty)
 		}
-		fl := byte(0)
+		fl := it.res & 0x7f
 		if it.crit {
-			fl = 0x80
+			fl |= 0x80
 		}
 		n := len(it.body) + 4
 		wire = append(wire, nx, fl, byte(n>>8), byte(n))
@@ -348,10 +349,10 @@ func runC13(c *Ctx) error {
 		return nil
 	}
 	genSup := func() chainItem {
-		return chainItem{sup: genPayload(rng, payloadKinds[rng.Intn(len(payloadKinds))]), crit: rng.Chance(1, 3)}
+		return chainItem{sup: genPayload(rng, payloadKinds[rng.Intn(len(payloadKinds))]), crit: rng.Chance(1, 3), res: resBits(rng)}
 	}
 	genUnsup := func(ty int) chainItem {
-		return chainItem{ty: ty, crit: rng.Chance(1, 3), body: r2(rng)}
+		return chainItem{ty: ty, crit: rng.Chance(1, 3), res: resBits(rng), body: r2(rng)}
 	}
 	// exhaustive over the type code for single insertions, at each position class
 	for _, ty := range unsup {
@@ -386,6 +387,13 @@ func runC13(c *Ctx) error {
 		}
 	}
 	return nil
+}
+
+func resBits(r *Rng) byte {
+	if r.Bool() {
+		return 0
+	}
+	return byte(r.Pick([]int{1, 2, 0x40, 0x7f, r.Intn(128)}))
 }
 
 func r2(r *Rng) []byte {
